@@ -92,6 +92,11 @@ def build_type_dict_from_type(t: Type, at_class: Optional[Type] = None) -> Dict[
     generic_type = get_origin(t)
     if generic_type is None:
         if at_class is not None:
+            # A plain class that derives from a parameterized one, `class X(Coll[int])`:
+            # the parameters are fixed by the base class it names.
+            inherited = get_inherited(t)
+            if inherited is not Any and t is not at_class:
+                return build_type_dict_from_type(inherited, at_class)
             raise TypeError(f"Could not find type {str(at_class)} in {str(t)}")
         return {}
 
